@@ -321,8 +321,9 @@ class World:
 
 def gen_keep(rng):
     """keep_mc_data_fields: none, partial, all MC-only fields, overlapping the experimental fields"""
-    return rng.choice([[], ['mcweight'], ['mcweight'], ['true_ra'], ['mcweight', 'true_ra'], ['mcweight', 'true_ra'],
-                       ['mcweight', 'dec'], ['dec', 'ra'], ['uid'], ['mcweight', 'true_ra', 'dec', 'uid', 'run'],
+    allmc = ['mcweight', 'true_ra', 'true_dec', 'sin_true_dec', 'true_energy', 'sin_dec']      # every MC-only field
+    return rng.choice([[], ['mcweight'], ['mcweight'], ['true_ra'], ['mcweight', 'true_ra'], allmc, allmc,
+                       ['mcweight', 'dec'], ['dec', 'ra'], ['uid'], allmc + ['dec', 'uid', 'run'],
                        ['time', 'mcweight', 'true_ra']])
 
 
